@@ -5,6 +5,7 @@ import (
 	"encoding/json"
 	"fmt"
 	"github.com/sdcio/cache/proto/cachepb"
+	"github.com/sdcio/data-server/pkg/cache"
 	"os"
 	"regexp"
 	"runtime/debug"
@@ -34,7 +35,7 @@ type c20 struct {
 
 func init() { core.Register(&c20{}) }
 
-var c20Families = []string{"path-strings", "element-sequences", "set-typed-values", "set-json-documents", "set-path-mutations", "rpc-requests", "sync-notifications", "netconf-xml"}
+var c20Families = []string{"path-strings", "element-sequences", "set-typed-values", "set-json-documents", "set-path-mutations", "rpc-requests", "sync-notifications", "netconf-xml", "stateful-histories"}
 
 func (c *c20) ID() string    { return "C20" }
 func (c *c20) Level() string { return "exploration" }
@@ -51,7 +52,7 @@ func (c *c20) batch(tier string) int {
 	return 40
 }
 func (c *c20) Rule() string {
-	return "one case = a batch of PRNG inputs for one entry-point family: path strings (ParsePath, CompletePath, ToStrings, StripPathElemPrefix), element sequences (SchemaClientBound.ToPath), TransactionSet through the Server handler with every typed-value kind against every leaf type, with JSON / JSON_IETF documents against every container (grammar-valid and structure-aware mutations: wrong JSON type at a node, missing / duplicated keys, leaf where a container is expected, deep nesting, huge / negative numbers), with mutated paths, flags, names and priorities; GetData / Subscribe / WatchDeviations / Confirm / Cancel / GetIntent requests; gNMI-style sync notifications through the sync loop; NETCONF XML replies through the production NETCONF target's Get (XML2sdcpb adapter). Every request / device message is marshalled and unmarshalled first (only wire-reachable shapes count). The only allowed outcomes are a response or an error: a recovered panic, a dead worker process (panic in a goroutine of the code under test, fatal error, stack overflow) and a call that does not return within 10 s (confirmed by a second run) are violations. distinct = family + inputs; non-trivial = the batch produced at least 3 different outcomes (different error texts / success)"
+	return "one case = a batch of PRNG inputs for one entry-point family: path strings (ParsePath, CompletePath, ToStrings, StripPathElemPrefix), element sequences (SchemaClientBound.ToPath), TransactionSet through the Server handler with every typed-value kind against every leaf type, with JSON / JSON_IETF documents against every container (grammar-valid and structure-aware mutations: wrong JSON type at a node, missing / duplicated keys, leaf where a container is expected, deep nesting, huge / negative numbers), with mutated paths, flags, names and priorities; GetData / Subscribe / WatchDeviations / Confirm / Cancel / GetIntent requests; gNMI-style sync notifications through the sync loop; NETCONF XML replies through the production NETCONF target's Get (XML2sdcpb adapter); valid multi-owner transaction histories with leaf-lists of different lengths on a device whose running values drift, with deviation cycles in between. Every request / device message is marshalled and unmarshalled first (only wire-reachable shapes count). The only allowed outcomes are a response or an error: a recovered panic, a dead worker process (panic in a goroutine of the code under test, fatal error, stack overflow) and a call that does not return within 10 s (confirmed by a second run) are violations. distinct = family + inputs; non-trivial = the batch produced at least 3 different outcomes (different error texts / success)"
 }
 func (c *c20) Assumptions() []string {
 	return []string{
@@ -749,6 +750,63 @@ func (c *c20) RunCase(w *core.Worker, idx int, seed uint64, res *core.CaseResult
 			res.Count("sync_barriers", 1)
 			if !arrived {
 				res.Violate("C20/hang/sync-loop-stalled", "after this batch of notifications a valid notification does not reach the running store within 10 s (%d notifications still queued): the sync loop has stopped\n  batch: %s", len(ch), strings.Join(inputs, "\n         "))
+			}
+		}
+	case "stateful-histories":
+		// valid requests only, but on a datastore with a history: several owners with overlapping leaves and leaf-lists of
+		// different lengths, a device whose values drift (also leaf-lists with more / fewer elements), deviation cycles in
+		// between - the comparisons and merges that only run when stores disagree
+		h := &hist{env: c.env, owners: []string{"oa", "ob", "oc", "od"}}
+		h.pool = append(poolFor("base+mk+extra+pres"), LeafDef{"/sys/dns", []string{"LL:a,b,c", "LL:c"}, "ll"}, LeafDef{"/types/ll-u64", []string{"LL:1", "LL:1,2", "LL:3,2,1"}, "ll"})
+		run := h.start(rng, res, true, false)
+		defer run.close()
+		for i := 0; i < n/4+2; i++ {
+			step := run.genStep(3)
+			desc := stepString(step)
+			note(desc)
+			var out setOutcome
+			id := run.nextID()
+			r.call("Datastore.TransactionSet", desc, func() error {
+				out = run.set(id, step, nil, time.Minute, false)
+				if out.panicked {
+					return fmt.Errorf("panicked")
+				}
+				return out.err
+			})
+			if out.panicked {
+				// apiCall recorded it as inconclusive api-panic: for C20 it is the violation
+				for fi := range res.Findings {
+					if res.Findings[fi].Key == "api-panic" {
+						res.Findings[fi].Verdict = core.Violated
+						res.Findings[fi].Key = "C20/panic/stateful-histories/" + panicKind(res.Findings[fi].Detail) + "@" + innermostFrame(res.Findings[fi].Detail)
+					}
+				}
+				break
+			}
+			if out.convErr == nil && out.err == nil && !out.rejected {
+				r.call("Datastore.TransactionConfirm", id, func() error { return run.ds.TransactionConfirm(run.ctx, id) })
+				run.m = applyToModel(run.m, step)
+			}
+			// the device drifts: some running values change behind the server's back
+			if rng.Chance(1, 2) {
+				var upds []*cache.Update
+				for k := 0; k < 1+rng.Intn(3); k++ {
+					l := h.pool[rng.Intn(len(h.pool))]
+					v := l.Vals[rng.Intn(len(l.Vals))]
+					b, _ := proto.Marshal(kindTv(l.Kind, v))
+					upds = append(upds, cache.NewUpdate(strings.Split(model.CachePath(model.Parse(l.XPath)), ","), b, 0, "", 0))
+					note("drift " + l.XPath + "=" + v)
+				}
+				c.env.Cache.Modify(ctx, run.ds.Name, &cache.Opts{Store: cachepb.Store_CONFIG}, nil, upds)
+			}
+			if rng.Chance(1, 2) {
+				st := fixture.NewFakeStream[*sdcpb.WatchDeviationResponse](ctx)
+				r.call("deviation cycle", desc, func() error {
+					run.ds.VerifDeviationCycle(ctx, map[string]sdcpb.DataServer_WatchDeviationsServer{"peer": st})
+					return nil
+				})
+				st.Cancel()
+				r.outcomes[fmt.Sprint("deviations:", len(st.Sent) > 2)] = true
 			}
 		}
 	case "netconf-xml":
